@@ -299,6 +299,9 @@ Inductive op :=
 | ODrain (n : node)
 | OLoad (n : node) (load : N)
 | ORemove (n : node)
+| OHealthCheck (timeout : Z) (ages : list (node * Z))
+    (* one sweep of NodeRegistry::run_health_checks; timeout = the registry's timeout in seconds,
+       ages = whole seconds since each node's last heartbeat (elapsed = age + a few ms) *)
 | ORebalance (order : list node)
 | ORoute (s : shard) (order : list node)
 | ORouteI (s : shard) (orders : list (list node)) (specs : list (list regop)).  (* route_write with interference *)
@@ -315,6 +318,20 @@ Definition heartbeat (n : node) (r : registry) : registry * bool :=
   | None => (r, false)
   end.
 
+(* run_health_checks, one node:
+     if elapsed > timeout { if Healthy | Suspected { Failed } }
+     else if elapsed > timeout / 2 && Healthy { Suspected }
+   with elapsed = age + epsilon, 0 < epsilon < 1 s, so `elapsed > t` is `t <= age` *)
+Definition sweep_node (timeout age : Z) (i : ninfo) : ninfo :=
+  if (timeout <=? age)%Z then
+    match n_status i with Healthy | Suspected => set_status NFailed i | _ => i end
+  else if (timeout <=? 2 * age)%Z then
+    match n_status i with Healthy => set_status Suspected i | _ => i end
+  else i.
+
+Definition health_check (timeout : Z) (ages : list (node * Z)) (r : registry) : registry :=
+  map (fun p => (fst p, sweep_node timeout (match aget N.eqb (fst p) ages with Some a => a | None => 0%Z end) (snd p))) r.
+
 Definition step (strat : strategy) (H : hashes) (st : state) (o : op) : state * result :=
   match o with
   | ORegister n ty stt load shards => (with_reg st (aset N.eqb n (mkNode ty stt load shards) (st_reg st)), RUnit)
@@ -323,6 +340,7 @@ Definition step (strat : strategy) (H : hashes) (st : state) (o : op) : state * 
   | ODrain n => (with_reg st (reg_update n (set_status Draining) (st_reg st)), RUnit)
   | OLoad n l => (with_reg st (reg_update n (set_load l) (st_reg st)), RUnit)
   | ORemove n => (with_reg st (adel N.eqb n (st_reg st)), RUnit)
+  | OHealthCheck timeout ages => (with_reg st (health_check timeout ages (st_reg st)), RUnit)
   | ORebalance order => let (st', m) := rebalance H order st in (st', RMoves m)
   | ORoute s order => let (st', r) := route_write strat H order st s in (st', RRoute r)
   | ORouteI s orders specs =>
